@@ -134,7 +134,7 @@ def generate(unit, repo_src=None, modes=None, probe=False):
                 try:
                     g.skeletons[key_] = _cs.skeleton(f, fn_)
                     psk = _cs.load_skeletons().get(unit.name, {}).get(key_)
-                    if psk is not None and psk != g.skeletons[key_]: g.reshaped.add(key_)
+                    if psk is not None and psk != g.skeletons[key_] and not _cs.small_in_place_edit(psk, g.skeletons[key_]): g.reshaped.add(key_)
                 except Exception:
                     pass
                 if key_ in pinned_cs:
